@@ -684,7 +684,7 @@ def run_frontends(pid, tier):
             'rule': spec['rule'], 'samples': cov['samples'][:3] + tksamples[:3], 'exhaustive': cov['exhaustive'],
             'frontend_lockstep': cov['per_slice'], 'tokenizer': tkres, 'tokenizer_args': list(args), 'compile_time_batch': gres,
         },
-        'assumptions': ['front-end syntaxes compared: functor Row (none, ActionSequence_, And_/Or_/Not_), basic row/a_row/g_row/_row + irow family, row2 family, PlantUML string; eUML is not covered',
+        'assumptions': ['front-end syntaxes compared: functor Row (none, ActionSequence_, And_/Or_/Not_), basic row/a_row/g_row/_row + irow family, row2 family, PlantUML string, eUML transition-table expression (back/back11)',
                         'tokenizer grammar and bounds as written in puml/tokenizer.cpp; un-wrapped edge documents are counted, not judged'],
         'wall_s': round(time.time() - t0, 2), 'violations': nviol,
     }
